@@ -141,7 +141,7 @@ func (s *Sim) opRegObs(op *Op, reg bool) {
 		return
 	}
 	o := s.observers[abs(op.O)%len(s.observers)]
-	if o.Registered == reg {
+	if o.Registered == reg || o.Invalid {
 		s.skip(op)
 		return
 	}
